@@ -47,7 +47,10 @@ class Closure:
 PURE_METHODS = {list: {'index', 'count', 'copy'}, tuple: {'index', 'count'}, dict: {'get', 'keys', 'values', 'items', 'copy'},
                 str: {'startswith', 'endswith', 'strip', 'lower', 'upper', 'split', 'format', 'join', 'replace'}}
 BUILTINS = {'str': str, 'int': int, 'float': float, 'bool': bool, 'list': list, 'tuple': tuple, 'dict': dict, 'len': len, 'isinstance': isinstance, 'sorted': sorted,
-            'reversed': lambda x: list(reversed(x)), 'range': lambda *a: list(range(*a)), 'enumerate': lambda x: list(enumerate(x)), 'min': min, 'max': max, 'any': any, 'all': all}
+            'reversed': lambda x: list(reversed(x)), 'range': lambda *a: list(range(*a)), 'enumerate': lambda x: list(enumerate(x)), 'min': min, 'max': max, 'any': any, 'all': all,
+            'zip': lambda *a: list(zip(*a)), 'set': set, 'frozenset': frozenset, 'sum': sum, 'abs': abs}
+MUTATORS = {list: {'append', 'extend', 'insert'}, dict: {'update', 'setdefault', '__setitem__'}, set: {'add', 'update'}}
+_MISSING = object()
 
 
 class Raised(Exception):
@@ -63,13 +66,21 @@ CMP = {ast.Lt: operator.lt, ast.LtE: operator.le, ast.Gt: operator.gt, ast.GtE: 
 
 
 def _comprehension(e, env):
-    if len(e.generators) != 1 or not isinstance(e.generators[0].target, ast.Name):
-        raise AnalysisError('pure evaluator: comprehension %s' % norm(e))
     g = e.generators[0]
+    tup = isinstance(g.target, ast.Tuple) and all(isinstance(t, ast.Name) for t in g.target.elts)
+    if len(e.generators) != 1 or not (isinstance(g.target, ast.Name) or tup):
+        raise AnalysisError('pure evaluator: comprehension %s' % norm(e))
     out = []
     inner = dict(env)
     for item in list(ev(g.iter, env)):
-        inner[g.target.id] = item
+        if tup:
+            item = tuple(item)
+            if len(item) != len(g.target.elts):
+                raise Raised('ValueError')
+            for t, x in zip(g.target.elts, item):
+                inner[t.id] = x
+        else:
+            inner[g.target.id] = item
         if all(ev(c, inner) for c in g.ifs):
             out.append(ev(e.elt, inner))
     return out
@@ -88,6 +99,20 @@ def ev(e, env):
         return env[e.id]
     if isinstance(e, (ast.GeneratorExp, ast.ListComp)):
         return _comprehension(e, env)
+    if isinstance(e, ast.SetComp):
+        return set(_comprehension(e, env))
+    if isinstance(e, ast.DictComp):
+        fake = ast.ListComp(elt=ast.Tuple(elts=[e.key, e.value], ctx=ast.Load()), generators=e.generators)
+        return dict(_comprehension(fake, env))
+    if isinstance(e, ast.Dict) and all(k is not None for k in e.keys):
+        return {ev(k, env): ev(v, env) for k, v in zip(e.keys, e.values)}
+    if isinstance(e, ast.Call) and isinstance(e.func, ast.Name) and e.func.id == 'next' and e.func.id not in env and not e.keywords and len(e.args) in (1, 2):
+        seq = list(ev(e.args[0], env))
+        if seq:
+            return seq[0]
+        if len(e.args) == 2:
+            return ev(e.args[1], env)
+        raise Raised('StopIteration')
     if isinstance(e, ast.Slice):
         return slice(ev(e.lower, env) if e.lower is not None else None, ev(e.upper, env) if e.upper is not None else None, ev(e.step, env) if e.step is not None else None)
     if isinstance(e, ast.Subscript):
@@ -104,6 +129,16 @@ def ev(e, env):
             raise Raised('%s' % type(ex).__name__)
     if isinstance(e, ast.Call) and isinstance(e.func, ast.Attribute) and not e.keywords:
         o_ = ev(e.func.value, env)
+        mt_ = env.get('__methods__')
+        if mt_ and hasattr(o_, '__dict__') and not isinstance(o_, Obj) and e.func.attr in mt_:
+            return call(mt_[e.func.attr], [o_] + [ev(a, env) for a in e.args], globals_={k: v for k, v in env.items() if k.startswith('__')})
+        if env.get('__mutable__'):
+            for ty_, meths_ in MUTATORS.items():
+                if isinstance(o_, ty_) and e.func.attr in meths_:
+                    try:
+                        return getattr(o_, e.func.attr)(*[ev(a, env) for a in e.args])
+                    except (KeyError, IndexError, ValueError, TypeError) as ex:
+                        raise Raised('%s' % type(ex).__name__)
         for ty_, meths_ in PURE_METHODS.items():
             if isinstance(o_, ty_) and not isinstance(o_, Obj) and e.func.attr in meths_:
                 try:
@@ -131,6 +166,8 @@ def ev(e, env):
         o = ev(e.value, env)
         if hasattr(o, '__dict__') and e.attr in vars(o):
             return vars(o)[e.attr]
+        if hasattr(o, '__dict__') and not isinstance(o, Obj):
+            raise AnalysisError('pure evaluator: attribute %s of the evaluated world is not modelled' % norm(e))
         if o is None or isinstance(o, (int, float, str, bool, tuple, list, dict)):
             raise Raised('AttributeError: %s' % e.attr)        # a plain value really has no such attribute
         raise AnalysisError('pure evaluator: attribute %s not modelled' % norm(e))
@@ -209,6 +246,26 @@ def run_body(stmts, env):
                     break
                 except _Continue:
                     continue
+        elif isinstance(s, ast.With) and env.get('__mutable__'):
+            run_body(s.body, env)
+        elif isinstance(s, ast.Assign) and env.get('__mutable__') and all(isinstance(t, (ast.Subscript, ast.Attribute, ast.Name)) for t in s.targets):
+            v = ev(s.value, env)
+            for t in s.targets:
+                if isinstance(t, ast.Name):
+                    env[t.id] = v
+                elif isinstance(t, ast.Subscript):
+                    o = ev(t.value, env)
+                    try:
+                        o[ev(t.slice, env)] = v
+                    except (KeyError, IndexError, TypeError) as ex:
+                        raise Raised(type(ex).__name__)
+                else:
+                    o = ev(t.value, env)
+                    if not hasattr(o, '__dict__'):
+                        raise Raised('AttributeError: %s' % t.attr)
+                    setattr(o, t.attr, v)
+        elif isinstance(s, ast.Expr) and isinstance(s.value, ast.Call) and env.get('__mutable__'):
+            ev(s.value, env)
         elif isinstance(s, ast.Break):
             raise _Break()
         elif isinstance(s, ast.Continue):
@@ -237,12 +294,18 @@ def run_body(stmts, env):
             raise AnalysisError('pure evaluator: unsupported statement %s' % norm(s))
 
 
-def call(fnode, args, globals_=None, strict_locals=False):
+def call(fnode, args, globals_=None, strict_locals=False, mutable=False, methods=None):
+    """mutable=True: the evaluated code may store into the (scratch) world objects it was given - used to let a constructor / registration
+    method build the small worlds its readers are then evaluated on; methods: {name: FunctionDef} callable on world objects"""
     params = [a.arg for a in fnode.args.args]
     env = dict(globals_ or {})
     env.update(zip(params, args))
     if strict_locals:
         env['__strict_locals__'] = True
+    if mutable:
+        env['__mutable__'] = True
+    if methods:
+        env['__methods__'] = methods
     try:
         run_body(fnode.body, env)
     except _Return as r:
